@@ -18,8 +18,9 @@ LEVEL_TEXT = (
 TRUSTED = "harness identity oracle; onnx protobuf for reading the serialized references"
 RULE = (
     "case = IR version + script of ops (add configuration, shard with valid arguments, shard with one invalid argument "
-    "[axis out of range, axis repeated modulo rank, num_shards<1, negative/conflicting stage, value not on the node], "
-    "set_pipeline_stage, rename value, replace_input_with, resize_inputs/outputs, replace_all_uses_with, safe node "
+    "[axis out of range, axis repeated modulo rank, num_shards<1, negative stage, any stage other than the recorded one - 0 included, value not on the node], "
+    "set_pipeline_stage (recorded stage/spec/devices checked after every accepted request), rename value (also to the name of an "
+    "outer value the nested graph never uses - legal shadowing), replace_input_with, resize_inputs/outputs, replace_all_uses_with, safe node "
     "removal, Model.clone / Graph.clone (continue on the clone), remove configuration by name/object with cascade, "
     "to_proto->from_proto (continue on the result)). Non-trivial = >=1 successful annotation followed by >=1 "
     "edit/clone/round trip that affects an annotated node. distinct = case JSON."
@@ -38,10 +39,10 @@ def strategy(tier, phase):
 
     # op kinds are drawn through a weighting table (annotation requests are what everything else reacts to)
     op = st.tuples(st.integers(0, len(WEIGHTED) - 1).map(lambda i: WEIGHTED[i]), st.integers(0, 30), st.integers(0, 30), st.integers(0, 30), st.integers(0, 30)).map(list)
-    return st.fixed_dictionaries({"irv": st.sampled_from([11, 12, 13]), "ops": st.sampled_from([6, 12, 25]).flatmap(lambda n: st.lists(op, min_size=n // 2, max_size=n))})
+    return st.fixed_dictionaries({"irv": st.sampled_from([11, 12, 13]), "shadow": st.booleans(), "ops": st.sampled_from([6, 12, 25]).flatmap(lambda n: st.lists(op, min_size=n // 2, max_size=n))})
 
 
-def build(irv):
+def build(irv, shadow=False):
     import onnx_ir as ir
 
     F = ir.TensorType(ir.DataType.FLOAT)
@@ -73,18 +74,22 @@ def build(irv):
     n4 = ir.Node("", "If", [cond], [ir.AttrGraph("then_branch", then_g), ir.AttrGraph("else_branch", else_g)], num_outputs=1, name="n4")
     n4.outputs[0].name = "t4"
     g = ir.Graph([a, b, cond], [n2.outputs[0], n3.outputs[0], n4.outputs[0]], nodes=[n0, n1, n2, n3, n4], initializers=[w], name="g", opset_imports={"": 20})
+    if shadow:
+        # values of the branches carry names of main-graph values that their graph never uses (legal shadowing)
+        i0.outputs[0].name, i1.outputs[0].name, e0.outputs[0].name = "t3", "b", "t2"
     return ir.Model(g, ir_version=irv)
 
 
 class State:
-    def __init__(self, irv):
-        self.model = build(irv)
+    def __init__(self, irv, shadow=False):
+        self.model = build(irv, shadow)
         self.model.add_device_configuration("cfg0", num_devices=2, device_names=("d0", "d1"))
         self.model.add_device_configuration("cfg1", num_devices=3)
         self.fails = []
         self.annotated = False
         self.affected = False
         self.n_names = 0
+        self.shadowing = bool(shadow)
 
     def nodes(self):
         return list(self.model.graph.all_nodes())  # incl. the nodes inside the If branches
@@ -157,6 +162,41 @@ def _node_pairs(graph, graph_proto):
                     yield from _node_pairs(sg, sp)
 
 
+def _inner_defined(m):
+    """Values defined inside nested graphs of the main graph (node outputs, inputs, initializers)."""
+    out = []
+    for n in m.graph.all_nodes():
+        if n.graph is not m.graph:
+            out.extend(n.outputs)
+    return out
+
+
+def _unshadowed(m, pool):
+    """Outer values a nested node can be given without ambiguity: their name is not defined again in a nested graph."""
+    inner_names = {v.name for v in _inner_defined(m)}
+    return [x for x in pool if x.name not in inner_names]
+
+
+def _shadow_candidates(m, n, v):
+    """Names of main-graph values that the nested graph defining `v` (and everything nested in it) never uses."""
+    g = n.graph
+    if g is None or g is m.graph or not any(v is o for o in n.outputs):
+        return []
+    used = set()
+    for nn in m.graph.all_nodes():
+        if nn.graph is not m.graph:  # any nested node: keep it simple and exclude what any nested graph captures
+            used.update(id(x) for x in nn.inputs if x is not None)
+    outer = list(m.graph.inputs) + [o for nn in m.graph for o in nn.outputs] + list(m.graph.initializers.values())
+    inner_names = {x.name for x in _inner_defined(m)}
+    names = []
+    for x in outer:
+        if id(x) in used or not x.name or x.name in inner_names or x.name in names:
+            continue
+        # an outer graph output keeps its meaning; its name may still be shadowed inside
+        names.append(x.name)
+    return names
+
+
 def run_op(st, op):
     import onnx_ir as ir
 
@@ -204,11 +244,34 @@ def run_op(st, op):
         stage = None if (a + d) % 3 else (stage_now if stage_now is not None else d % 3)
         devs = list(range(1 + (b + d) % cfg.num_devices))
         before = n.device_configurations
+        others_before = [dc for dc in before or () if dc.configuration is not cfg]
         try:
             n.shard(v, configuration=cfg, axis=axis, num_shards=1 + d % 3, device_indices=devs, pipeline_stage=stage)
             st.annotated = True
         except Exception as e:
             st.fail(f"valid-shard-rejected/{type(e).__name__}", f"shard({v.name}, axis={axis}, rank={r}, stage={stage}) raised {type(e).__name__}: {e}"[:300])
+            return f"shard({n.name},{v.name},axis={axis})"
+        # what an accepted request must have recorded (documented behaviour of Node.shard)
+        mine = [dc for dc in n.device_configurations or () if dc.configuration is cfg]
+        want_stage = stage if stage is not None else stage_now
+        if len(mine) != 1:
+            st.fail("shard-not-recorded/configuration-entries", f"after shard() node {n.name} has {len(mine)} entries for configuration {cfg.name}")
+        else:
+            if mine[0].pipeline_stage != want_stage:
+                st.fail("shard-not-recorded/stage", f"shard(..., pipeline_stage={stage}) with previous stage {stage_now}: node reports stage {mine[0].pipeline_stage}")
+            specs = [sp for sp in mine[0].sharding_specs if sp.value is v]
+            if len(specs) != 1:
+                st.fail("shard-not-recorded/spec-entries", f"after shard() there are {len(specs)} specs for {v.name}")
+            else:
+                axes = {}
+                for sd in specs[0].sharded_dims:
+                    axes[sd.axis + r if (r and sd.axis < 0) else sd.axis] = [x.num_shards for x in sd.simple_shardings]
+                if axes.get(norm) != [1 + d % 3] or not taken <= set(axes) or len(axes) != len(taken) + 1:
+                    st.fail("shard-not-recorded/axes", f"axes recorded {axes}, expected previous {sorted(taken)} plus {norm}:{1 + d % 3}")
+                if not set(devs) <= set(specs[0].device):
+                    st.fail("shard-not-recorded/devices", f"devices {specs[0].device} do not include {devs}")
+        if [dc for dc in n.device_configurations or () if dc.configuration is not cfg] != others_before:
+            st.fail("shard-changed-other-configuration", f"shard() for {cfg.name} changed the node's entries of other configurations")
         return f"shard({n.name},{v.name},axis={axis})"
     if k == 3 and cfgs and ios:  # invalid shard requests: must raise, no effect
         cfg = cfgs[b % len(cfgs)]
@@ -249,7 +312,7 @@ def run_op(st, op):
                     cur = dc.pipeline_stage
             if cur is None:
                 return "noop"
-            kwargs["pipeline_stage"] = cur + 1
+            kwargs["pipeline_stage"] = [x for x in range(0, 4) if x != cur][(d // 6) % 3]  # any other stage, 0 included
             # use an axis that is free so that only the stage is wrong
             kwargs["axis"] = 0
         before = n.device_configurations
@@ -277,21 +340,36 @@ def run_op(st, op):
                 if n.device_configurations is not before:
                     st.fail("invalid-stage-changed-state", "rejected set_pipeline_stage changed the node")
         else:
+            specs_before = [(dc.configuration, dc.sharding_specs) for dc in n.device_configurations or ()]
             n.set_pipeline_stage(cfg, c % 4)
             st.annotated = True
+            mine = [dc for dc in n.device_configurations or () if dc.configuration is cfg]
+            if len(mine) != 1 or mine[0].pipeline_stage != c % 4:
+                st.fail("stage-not-recorded", f"set_pipeline_stage({cfg.name}, {c % 4}) left {[dc.pipeline_stage for dc in mine]}")
+            after = [(dc.configuration, dc.sharding_specs) for dc in n.device_configurations or () if any(dc.configuration is x for x, _ in specs_before)]
+            if [(id(x), y) for x, y in after] != [(id(x), y) for x, y in specs_before]:
+                st.fail("stage-changed-sharding", f"set_pipeline_stage changed the sharding specs of node {n.name}")
         return f"set_pipeline_stage({n.name})"
     annotated_node = bool(n.device_configurations)
     if k == 5 and ios:  # rename a value
         v = ios[b % len(ios)]
         if not v.is_initializer():
-            st.n_names += 1
-            v.name = f"renamed{st.n_names}"
+            shadow = _shadow_candidates(m, n, v) if d % 3 == 0 else []
+            if shadow:
+                # legal shadowing: a value defined inside a nested graph takes the name of an outer value that graph never uses
+                v.name = shadow[c % len(shadow)]
+                st.shadowing = True
+            else:
+                st.n_names += 1
+                v.name = f"renamed{st.n_names}"
             st.affected = st.affected or annotated_node
         return f"rename({v.name})"
     if k == 6 and n.inputs:  # replace input
         i = b % len(n.inputs)
         old = n.inputs[i]
         pool = [x for nn in m.graph for x in nn.outputs if nn is not n] + list(m.graph.inputs)  # main-graph values: visible everywhere
+        if n.graph is not m.graph:
+            pool = _unshadowed(m, pool)
         new = pool[c % len(pool)] if (pool and d % 4) else None
         n.replace_input_with(i, new)
         st.affected = st.affected or annotated_node
@@ -324,8 +402,12 @@ def run_op(st, op):
     if k == 9 and n.outputs:  # replace all uses
         v = n.outputs[b % len(n.outputs)]
         pool = [x for nn in m.graph for x in nn.outputs if x is not v] + list(m.graph.inputs)
-        r = pool[c % len(pool)]
         users = [u for u, _ in v.uses()]
+        if any(u.graph is not m.graph for u in users):
+            pool = _unshadowed(m, pool)
+        if not pool:
+            return "noop"
+        r = pool[c % len(pool)]
         try:
             v.replace_all_uses_with(r, replace_graph_outputs=bool(d % 2))
         except ValueError:
@@ -379,7 +461,7 @@ def run_op(st, op):
 
 def execute(case):
     try:
-        st = State(case["irv"])
+        st = State(case["irv"], bool(case.get("shadow")))
         for i, op in enumerate(case["ops"]):
             if not (isinstance(op, list) and len(op) == 5):
                 return dict(failures=[], nontrivial=False, classes=["malformed"])
@@ -397,6 +479,8 @@ def execute(case):
         classes.append("annotated")
     if st.affected:
         classes.append("annotation_then_edit")
+    if st.shadowing:
+        classes.append("shadowed_name")
     seen, out = set(), []
     for b_, m in st.fails:
         if b_ not in seen:
